@@ -302,6 +302,8 @@ Proof.
     cbn [pp_tok]. rewrite !strip_app. cbn [strip filter app]. repeat rewrite <- app_assoc. cbn [app parse_u].
     erewrite (Hop it); [| exact (IHi Hi) | exact Hi | lia | exact I].
     erewrite (Hop mn rest); [reflexivity | exact (IHm Hm) | exact Hm | lia | exact Hr].
+  - (* the <special / date-time / system property> *)
+    intros k i _ fuel rest Hf Hr. cbn [size] in Hf. fuelS fuel f. cbn [pp_tok strip filter app parse_u]. reflexivity.
   - intros _. constructor.
   - intros x l IHx IHl [Hx Hl]. constructor; [exact (IHx Hx) | exact (IHl Hl)].
 Qed.
